@@ -377,6 +377,11 @@ class ArgumentParser:
         # Suppress warnings for common arguments we don't care about.
         parser.add_argument("-O", dest=None, nargs="?")
         parser.add_argument("-o", dest=None)
+        # -g and -c stay registered, so that argparse cannot mistake them for
+        # abbreviations of compiler-specific options (e.g. nvcc's -gencode);
+        # the optional value absorbs spellings such as -g3, -ggdb or -ccbin.
+        parser.add_argument("-g", dest=None, nargs="?")
+        parser.add_argument("-c", dest=None, nargs="?")
         parser.add_argument("file", nargs="*")
 
         # Add additional options for this specific compiler.
@@ -409,10 +414,6 @@ class ArgumentParser:
 
         # Make a best-effort attempt to parse arguments.
         args, unrecognized = parser.parse_known_args(split_argv, namespace)
-        # Suppress warnings for -g and -c. They are not registered with the
-        # parser because argparse would then reject any other option that
-        # begins with them (e.g. -g3, -ggdb, -ccbin, -coverage).
-        unrecognized = [u for u in unrecognized if u not in ["-g", "-c"]]
         if unrecognized:
             log.warning(f"Unrecognized arguments: '{' '.join(unrecognized)}'")
 
